@@ -122,6 +122,25 @@ func shortTypeKey(k string) string {
 	return k
 }
 
+// boxField is the pseudo field under which the value a pointer to a non-struct type points to is kept in the heap
+// (one array per pointee type, like a struct with a single field).
+const boxField = "*"
+
+// boxElem: the pointee type of a pointer to a non-struct, non-time type (nil otherwise).
+func boxElem(t types.Type) types.Type {
+	if t == nil {
+		return nil
+	}
+	pt, ok := t.Underlying().(*types.Pointer)
+	if !ok {
+		return nil
+	}
+	if _, isStruct := pt.Elem().Underlying().(*types.Struct); isStruct {
+		return nil
+	}
+	return pt.Elem()
+}
+
 func structOf(t types.Type) *types.Struct {
 	if p, ok := t.Underlying().(*types.Pointer); ok {
 		t = p.Elem()
